@@ -10,7 +10,7 @@ uint32_t cx_expected, cx_g, cx_role = ROLE;
 int main(void)
 {
   world_init(1);
-  uint32_t expected = nondet_u32(), g = nondet_u32(); VF_ASSUME(expected >= 1 && expected < 1000000 && g <= 1000);
+  uint32_t expected = nondet_u32(), g = nondet_u32(); VF_ASSUME(expected >= 1 && expected <= 0x7fffffffu && g <= 0x7fffffffu - expected);       /* FIX SeqNum domain (positive int) */
 #ifdef KF_LOGON_GAP
   VF_ASSUME(g == 0);
 #endif
@@ -24,11 +24,11 @@ int main(void)
 #else
   vf_sess_set_state(BASE, st_logon_sent); vf_sess_set_sid(BASE, s, 1, t, 1);
 #endif
-  uint8_t type[2] = { 'A', 0 }; msg_init(type, 1); vf_msg_set_compids(&the_msg, t, 1, s, 1);
+  uint8_t type[2] = { 'A', 0 }; msg_init(type, 1); vf_msg_set_compids(&the_msg, t, 1, s, 1); m_sci[0] = 'T'; m_sci_n = 1; m_tci[0] = 'S'; m_tci_n = 1;
   m_is_admin = 1; m_auth = 1; m_has_reset = 0; m_has_hbi = 1; m_hbi = 30; m_has_pd = 0; m_has_st = 1; m_st = 1000; m_has_ost = 0;
   uint32_t seq = expected + g;
-  uint8_t d[ND]; digits_of(d, seq);
-  uint8_t raw[16]; uint32_t rawn = raw_seq(raw, d);
+  
+  uint8_t raw[12]; uint32_t rawn = raw_abs(raw, seq);
   uint8_t ret = vf_process(SESS, raw, rawn);
   int thrown = __vf_exc_pending; __vf_exc_pending = 0;
   int logout = 0, resend = 0; uint32_t rb = 0;
